@@ -25,7 +25,7 @@ ASSUMPTIONS = [
     'ACTIVE means proto state ACTIVE (STOPPING trials are not ACTIVE)',
     'ground truth is read from the datastore inside the same Designer.update() call',
 ]
-REQUIRED_COUNTERS = ['server_restarts', 'update_events', 'deliveries_ledgered', 'events_with_active', 'state_restorations',
+REQUIRED_COUNTERS = ['designer_state_corruptions', 'server_restarts', 'update_events', 'deliveries_ledgered', 'events_with_active', 'state_restorations',
                      'state_losses', 'rebuilt_policy_events', 'inram_events']
 MIN_DISTINCT = {'quick': 150, 'thorough': 3000}
 ROUTES = ['svc-ps-ram', 'svc-ps-sqlmem', 'svc-dp-ram', 'inram-ps', 'svc-ps-sqlfile', 'svc-ps-ram']
@@ -135,8 +135,12 @@ def gen_history(rng, route):
       steps.append({'k': 'stop', 'pick': rng.random()})
     elif r < 0.95:
       steps.append({'k': 'delete', 'pick': rng.random(), 'highest': rng.random() < 0.5})
-    else:
+    elif r < 0.975:
       steps.append({'k': 'corrupt_state'})
+    else:
+      # only the designer's part of the persisted state is unreadable: the policy has
+      # to start a fresh designer *and* forget what it had delivered to the old one
+      steps.append({'k': 'corrupt_designer_state'})
   if route.endswith('sqlfile'):
     # server restarts: a new VizierServicer on the same SQLite file
     for _ in range(rng.randint(1, 4)):
@@ -146,7 +150,7 @@ def gen_history(rng, route):
   if route == 'inram-ps':
     steps = [s for s in steps if s['k'] in ('suggest', 'complete', 'add_completed')]
   if route.startswith('svc-dp'):
-    steps = [s for s in steps if s['k'] != 'corrupt_state']
+    steps = [s for s in steps if s['k'] not in ('corrupt_state', 'corrupt_designer_state')]
   return steps
 
 
@@ -308,6 +312,10 @@ def run_service(ctx, index, route, steps):
     elif k == 'corrupt_state':
       S.call_servicer(servicer, {'op': 'UpdateMetadata', 'study': sname, 'delta': [
           [None, ':designer_policy_v0:cache', 'incorporated_completed_trials_ids', 'not json']]})
+    elif k == 'corrupt_designer_state':
+      ctx.count('designer_state_corruptions')
+      S.call_servicer(servicer, {'op': 'UpdateMetadata', 'study': sname, 'delta': [
+          [None, ':designer_policy_v0:designer', 'rec', 'not json']]})
     if not ledger.ok:
       break
   for kk, dd in mon.anomalies:
